@@ -237,6 +237,19 @@ class HandlerExplorer:
             return True
         return None
 
+    def registry_test(self, f: FuncInfo, test: ast.AST, st) -> Optional[Tuple[str, str, bool]]:
+        """(zone variable, record kind, polarity) for `<key of kind K of zone v> [not] in v.targets`"""
+        if isinstance(test, ast.UnaryOp) and isinstance(test.op, ast.Not):
+            x = self.registry_test(f, test.operand, st)
+            return None if x is None else (x[0], x[1], not x[2])
+        if isinstance(test, ast.Compare) and len(test.ops) == 1 and isinstance(test.ops[0], (ast.In, ast.NotIn)):
+            c = test.comparators[0]
+            if isinstance(c, ast.Attribute) and c.attr == "targets" and isinstance(c.value, ast.Name) and c.value.id in st["defs"]:
+                kt = _key_target(self.r, f, test.left, self.reg.tt)
+                if kt is not None and kt[0] == c.value.id:
+                    return kt[0], kt[1], isinstance(test.ops[0], ast.In)
+        return None
+
     def ident_test(self, f: FuncInfo, test: ast.AST, st) -> Optional[Tuple[str, str]]:
         """(zone variable, zone type member) for `v.identifier == ZoneType.X.value`"""
         if isinstance(test, ast.Compare) and len(test.ops) == 1 and isinstance(test.ops[0], ast.Eq):
@@ -353,6 +366,16 @@ class HandlerExplorer:
                         continue
                     a0, b0 = self._copy(st), self._copy(st)
                     a0["types"][var] = member
+                    a = self._exec(g, s.body, zp, env, a0, exits)
+                    b = self._exec(g, s.orelse, zp, env, b0, exits)
+                    st = self._join(a, b)
+                    continue
+                mt = self.registry_test(g, s.test, st)
+                if mt is not None:
+                    var, kind, pol = mt
+                    # `key in zone.targets`: on the true edge the record certainly exists; both edges are explored
+                    a0, b0 = self._copy(st), self._copy(st)
+                    (a0 if pol else b0)["defs"].setdefault(var, set()).add(kind)
                     a = self._exec(g, s.body, zp, env, a0, exits)
                     b = self._exec(g, s.orelse, zp, env, b0, exits)
                     st = self._join(a, b)
@@ -679,6 +702,52 @@ def check_division_guards(ctx: CheckContext, p: Program, r: Resolver, funcs: Lis
             ok = isinstance(op, (ast.Gt, ast.Lt, ast.NotEq))
             ctx.ob(rule, f"{f.qualname}:{norm_stmt(test)}", f"{f.module.relpath}:{test.lineno}", ok,
                    "" if ok else f"`{ast.unparse(test)}` guards a division by `{xt}` but admits {xt} == 0: the result is NaN/inf (0/0) instead of the fallback value")
+    return n
+
+
+def check_record_divisions(ctx: CheckContext, p: Program, r: Resolver, funcs: List[FuncInfo], rule: str = "DIV-GUARD"):
+    """In a function that builds a target record (a dict literal with three or more *_target keys) every division by a non-constant
+    stands in the arm of a conditional that compares that denominator with zero.  A try/except ZeroDivisionError is not such a guard:
+    the operands come out of problem tables (numpy scalars), whose division by zero yields inf/nan with a warning, not an exception."""
+    n = 0
+    for f in funcs:
+        if isinstance(f.node, ast.Lambda):
+            continue
+        nodes = body_nodes(f)
+        builds = any(isinstance(x, ast.Dict) and sum(1 for k in x.keys if isinstance(k, ast.Constant) and isinstance(k.value, str) and k.value.endswith("_target")) >= 3
+                     for x in nodes)
+        if not builds:
+            continue
+        parent = {}
+        for x in ast.walk(f.node):
+            for ch in ast.iter_child_nodes(x):
+                parent[id(ch)] = x
+        for d in nodes:
+            if not (isinstance(d, ast.BinOp) and isinstance(d.op, (ast.Div, ast.FloorDiv)) and not isinstance(d.right, ast.Constant)):
+                continue
+            den = ast.unparse(d.right).strip("()")
+            guarded = False
+            cur = d
+            while id(cur) in parent and not guarded:
+                par = parent[id(cur)]
+                if isinstance(par, (ast.IfExp, ast.If)) and cur is not par.test:
+                    for c in ast.walk(par.test):
+                        if isinstance(c, ast.Compare) and len(c.ops) == 1:
+                            sides = [ast.unparse(c.left).strip("()"), ast.unparse(c.comparators[0]).strip("()")]
+                            if den in sides and any(isinstance(z, ast.Constant) and z.value == 0 for z in (c.left, c.comparators[0])):
+                                guarded = True
+                cur = par
+            n += 1
+            in_try = False
+            cur = d
+            while id(cur) in parent:
+                cur = parent[id(cur)]
+                if isinstance(cur, ast.Try):
+                    in_try = True
+            ctx.ob(rule, f"{f.qualname}:record-division:{den[:60]}", f"{f.module.relpath}:{d.lineno}", guarded,
+                   "" if guarded else f"{f.name} divides by `{den[:80]}` while building a target record and no conditional compares that denominator with zero"
+                                      + (" (the surrounding try/except ZeroDivisionError never fires for numpy scalars: the record gets inf/nan)" if in_try else
+                                         ": a zone without recoverable heat puts inf/nan into the record"))
     return n
 
 
